@@ -11,20 +11,26 @@
               of bytes the destination format defines: 1, 2, 4 or 8)                            *)
 EXTENDS EbpfRun, Dsl
 
+(* a variable declared with a byte order (">h", "!Q") keeps its value in memory in that order: the value's bytes,
+   least significant first, are the memory bytes reversed when the record says be (big-endian)                    *)
+InOrder(rec, bytes) == IF "be" \in DOMAIN rec /\ rec.be
+                       THEN Mat([i \in 1 .. Len(bytes) |-> bytes[Len(bytes) + 1 - i]], Len(bytes)) ELSE bytes
+
 RECURSIVE LeafFn(_, _, _)
 LeafFn(k, m, j) ==
     IF j > Len(k.leaves) THEN (<<0, -1>> :> W0)
     ELSE (<<k.leaves[j].fd, k.leaves[j].off>> :>
              WZext(IF "key" \in DOMAIN k.leaves[j]           \* a hash-map variable: the entry of its key
                    THEN LoadBytes(m, Rg("hash", k.leaves[j].fd, k.leaves[j].key), 0, k.leaves[j].len)
-                   ELSE LoadBytes(m, Rg("arr", k.leaves[j].fd, <<>>), k.leaves[j].off, k.leaves[j].len), 8))
+                   ELSE InOrder(k.leaves[j],
+                                LoadBytes(m, Rg("arr", k.leaves[j].fd, <<>>), k.leaves[j].off, k.leaves[j].len)), 8))
          @@ LeafFn(k, m, j + 1)
 Leaves(k) == LeafFn(k, Mem(k), 1)
 
 Observed(k, f) == IF "key" \in DOMAIN k.dst
                   THEN (IF Rg("hash", k.dst.fd, k.dst.key) \in DOMAIN f.m
                         THEN LoadBytes(f.m, Rg("hash", k.dst.fd, k.dst.key), 0, k.dst.size) ELSE <<"absent">>)
-                  ELSE LoadBytes(f.m, Rg("arr", k.dst.fd, <<>>), k.dst.off, k.dst.size)
+                  ELSE InOrder(k.dst, LoadBytes(f.m, Rg("arr", k.dst.fd, <<>>), k.dst.off, k.dst.size))
 
 (* verdict of one case; f = Final(k), L = Leaves(k), w = the narrowest width involved *)
 VerdictOf(k, f, L, w) ==
